@@ -404,6 +404,8 @@ c01_pipe!(c01_pipe_nearest_2x3_rev_ax1, i8, id8, 0i8, Nearest, 2, 3, 6, 3, 3, 1,
 c01_pipe!(c01_pipe_midpoint_3x2_c_ax0, i16, w16, 0i16, Midpoint, 3, 2, 6, 2, 0, 0, [T3[3], T3[2]], 10);
 //@ prop=C01,C03:thorough,C20:thorough tier=quick mem=8 timeout=3000 flags=modelmap uses=cut inst="quantiles_axis_mut(Axis(0), [0.3, 0.0], Linear) on ArrayViewMut2<i16> 3x2 F-order rows reversed" bounds="i8-range payloads; unwind 10"
 c01_pipe!(c01_pipe_linear_3x2_frev_ax0, i16, w16, 0i16, Linear, 3, 2, 6, 2, 4, 0, [T3[5], T3[0]], 10);
+//@ prop=C01,C03:thorough,C20:thorough tier=quick mem=8 timeout=3000 flags=modelmap uses=cut inst="quantiles_axis_mut(Axis(1), [0.75, 0.0], Nearest) on ArrayViewMut2<i8> 2x3 C-order rows reversed (contiguous, lane stride +1)" bounds="all lane contents; unwind 10"
+c01_pipe!(c01_pipe_nearest_2x3_crowrev_ax1, i8, id8, 0i8, Nearest, 2, 3, 6, 2, 5, 1, [T3[4], T3[0]], 10);
 //@ prop=C01 tier=quick mem=6 timeout=3000 flags=modelmap uses=cut inst="quantiles_axis_mut with an EMPTY request list on ArrayViewMut2<i8> 2x2" bounds="0 requests; unwind 10"
 c01_pipe!(c01_pipe_lower_2x2_noreq, i8, id8, 0i8, Lower, 2, 2, 4, 0, 0, 1, [], 10);
 
